@@ -48,10 +48,13 @@ Common ==
   /\ table = InitTable(terms)
   /\ bonds = <<>>
   /\ swaps = 0
+\* (enumerated as strictly increasing sequences of words, not as SUBSET Words(N), which has 2^|Words| elements)
+RECURSIVE WVal(_, _)
+WVal(w, i) == IF i > Len(w) THEN 0 ELSE w[i] + (A + 1) * WVal(w, i + 1)
 InitSets ==
-  /\ \E ws \in SUBSET Words(N) :
-        /\ Cardinality(ws) \in 1..MaxTerms
-        /\ \E f \in [ws -> Factors] : input = SeqOf({<<w, f[w]>> : w \in ws})
+  /\ \E n \in 1..MaxTerms : \E ws \in [1..n -> Words(N)] :
+        /\ \A i \in 1..(n - 1) : WVal(ws[i], 1) < WVal(ws[i + 1], 1)
+        /\ \E f \in [1..n -> Factors] : input = [k \in 1..n |-> <<ws[k], f[k]>>]
   /\ Common
 InitLists ==
   /\ input \in UNION {[1..n -> Words(N) \X Factors] : n \in 1..MaxList}
